@@ -10,6 +10,7 @@ EXPLANATION = (
     "root (a method reaching BTree::root on that field) and the engine's vector-insert path must reach IndexCatalog::update_root. "
     "Distances, ordering and exactness of search results are not decided."
     " C31.3: every method of a cache-owning store that writes the backing store also updates or invalidates the cache."
+    " C31.4: in HnswIndex::insert a neighbour list is truncated only under len > 2*m (the bound in the property's small-index exactness clause)."
 )
 
 BTREE = "nervusdb_storage::index::btree::BTree"
